@@ -22,5 +22,13 @@ CHECK = {
             "shards": {"quick": 16, "thorough": 16},
             "budget_s": {"quick": 80, "thorough": 1200},
         },
+        {
+            # Unlock as a scheduling point of its own
+            "name": "c11-unlockgates", "pkg": CC, "rewrite": [CC], "tiers": ["thorough"],
+            "harness": ["connectconformance/c11_test.go", "connectconformance/fakeproc_test.go", "connectconformance/gateutil_test.go"],
+            "test": "^TestVerifC11$", "gomaxprocs": 1, "env": {"VERIF_GATE_UNLOCK": "1", "VERIF_TIER_OVERRIDE": "quick"},
+            "shards": {"quick": 16, "thorough": 16},
+            "budget_s": {"quick": 80, "thorough": 600},
+        },
     ],
 }
